@@ -1639,7 +1639,22 @@ class Interp:
         names = {x.id for x in ast.walk(g.target) if isinstance(x, ast.Name)}
         uses_target = any(isinstance(x, ast.Name) and x.id in names for x in ast.walk(e.elt))
 
+        # the elements are evaluated on demand: a versioned model object (a dict with symbolic keys) that `elt` reads
+        # must still hold the value it had when the comprehension was built, else the lazy reading would differ from
+        # CPython's eager one -> Unsupported
+        versions = []
+        for nm in sorted({x.id for x in ast.walk(e) if isinstance(x, ast.Name)}):
+            try:
+                ov = fr.lookup(nm)
+            except PyRaise:
+                continue
+            if isinstance(ov, ModelObj) and hasattr(ov, "py_version"):
+                versions.append((nm, ov, ov.py_version()))
+
         def getter(i):
+            for nm, ov, ver in versions:
+                if ov.py_version() is not ver:
+                    raise Unsupported(f"comprehension over a sequence of symbolic length reads `{nm}`, which was mutated after the comprehension was built")
             cfr = Frame(fr.fn, fr.mod, parent=fr)
             cfr.self_obj = fr.self_obj
             self.assign_target(V.cur(), g.target, Q.seq_get(seq, i), cfr)
@@ -1647,6 +1662,7 @@ class Interp:
 
         r = SSeq(n, getter, None, None, "comp")
         r.lazy = True
+        r.comp_over = seq.seq if isinstance(seq, LRef) else seq  # provenance (pyvc.fmap: pairs computed from m.items())
         h = getattr(self.task.c, "comprehension_sum", None)
         if h is not None:
             sv = h(self, st, e, fr, seq)
